@@ -70,6 +70,9 @@ fn variants(rng: &mut Rng, k: u32) -> Vec<(&'static str, String)> {
         ("subshell-cd", format!("( cd d; echo *; echo w{k} >sub_f{k} ); echo \"?=$?\"; echo d/*")),
         ("cd", "cd d; echo *; cd ..; echo \"?=$?\"".to_string()),
         ("cd-missing", "cd nodir; echo \"?=$?\"".to_string()),
+        ("empty-path", "cat <\"\"; echo \"?=$?\"; ( exec 3<\"\"; echo in ); echo \"?=$?\"; echo x >\"\"; echo \"?=$?\"".to_string()),
+        ("dotdot-after-file", "cat <e1/../e1; echo \"?=$?\"; echo e1/../* e1/./*; cat <e1/.; echo \"?=$?\"".to_string()),
+        ("cd-physical", "cd -P ./d/./sub/..; echo \"?=$? ${PWD##*/}\"; pwd -P >p.txt; read p <p.txt; echo \"${p##*/}\"; cd -P ..; echo \"${PWD##*/}\"".to_string()),
         ("cd-pwd", "cd d/sub/..//sub/; echo \"${PWD##*/} ?=$?\"; cd - >|discarded; echo \"${PWD##*/}|${OLDPWD##*/}\"; cd \"$OLDPWD/..\"; echo *; cd ..".to_string()),
         ("cd-pwd", "cd ./d/.; pwd >p.txt; read p <p.txt; echo \"${p##*/}\"; cd ..; cd d/sub; cd ../../d; echo \"${PWD##*/} ?=$?\"; cd ..".to_string()),
         ("cd-pwd", "cd d; cd ../e1; echo \"?=$?\"; cd ../nodir/..; echo \"?=$? ${PWD##*/}\"; cd ..".to_string()),
@@ -485,6 +488,9 @@ pub struct C19;
 #[derive(Clone, Debug, Serialize, Deserialize)]
 struct Stored {
     case: Case,
+    /// engine (s): a system-call history instead of a script
+    #[serde(default)]
+    shist: Option<crate::syscalls::SHist>,
 }
 
 /// Full differential run of one case. Returns (violation, admitted?, sim outcome hash)
@@ -560,12 +566,32 @@ fn differential(c: &Case, seed: u64, index: u64, schedules: u32, stats: Option<&
     (None, true)
 }
 
+fn sys_failure(h: &crate::syscalls::SHist, v: (String, String, String)) -> Failure {
+    Failure {
+        class: v.0,
+        key: v.1,
+        detail: v.2,
+        case: serde_json::to_value(Stored {
+            case: Case {
+                lines: Vec::new(),
+                tags: Vec::new(),
+                features: Vec::new(),
+            },
+            shist: Some(h.clone()),
+        })
+        .unwrap(),
+        cfg: SimConfig::default(),
+        decisions: Vec::new(),
+        history_tail: Vec::new(),
+    }
+}
+
 fn failure(c: &Case, v: (String, String, String)) -> Failure {
     Failure {
         class: v.0,
         key: v.1,
         detail: format!("{}\n--- script ---\n{}", v.2, c.lines.join("\n")),
-        case: serde_json::to_value(Stored { case: c.clone() }).unwrap(),
+        case: serde_json::to_value(Stored { case: c.clone(), shist: None }).unwrap(),
         cfg: SimConfig::default(),
         decisions: Vec::new(),
         history_tail: Vec::new(),
@@ -611,6 +637,32 @@ impl Prop for C19 {
     }
 
     fn run_case(&self, seed: u64, index: u64, tier: Tier, stats: &mut Stats) -> Option<Failure> {
+        // engine (s): the same system-call histories on both kernels
+        {
+            let mut sr = Rng::stream(seed, 1977, index);
+            let n = match tier {
+                Tier::Quick => 4,
+                Tier::Thorough => 8,
+            };
+            let hists: Vec<crate::syscalls::SHist> = (0..n).map(|_| crate::syscalls::generate(&mut sr, tier == Tier::Thorough)).collect();
+            match crate::syscalls::run_real_batch(&hists) {
+                None => stats.count("syscall_histories:real-side-failed", 1),
+                Some(real) => {
+                    let mut reach = std::collections::BTreeMap::new();
+                    for (h, r) in hists.iter().zip(real.iter()) {
+                        stats.count("syscall_histories", 1);
+                        let sim = crate::syscalls::run_virtual(h);
+                        if let Some(v) = crate::syscalls::compare(h, &sim, r, &mut reach) {
+                            stats.count("violating_runs", 1);
+                            return Some(sys_failure(h, v));
+                        }
+                    }
+                    for (k, v) in reach {
+                        stats.count(k, v);
+                    }
+                }
+            }
+        }
         let mut rng = Rng::stream(seed, 19, index);
         let case = generate(&mut rng, tier);
         let schedules = match tier {
@@ -650,6 +702,11 @@ impl Prop for C19 {
 
     fn rerun(&self, case: &Value, _cfg: &SimConfig, _decisions: &[Decision]) -> Option<Failure> {
         let s: Stored = serde_json::from_value(case.clone()).ok()?;
+        if let Some(h) = &s.shist {
+            let real = crate::syscalls::run_real_batch(std::slice::from_ref(h))?;
+            let sim = crate::syscalls::run_virtual(h);
+            return crate::syscalls::compare(h, &sim, &real[0], &mut std::collections::BTreeMap::new()).map(|v| sys_failure(h, v));
+        }
         let (v, _) = differential(&s.case, 1, 0, 6, None);
         v.map(|v| failure(&s.case, v))
     }
@@ -658,12 +715,18 @@ impl Prop for C19 {
         let Ok(s) = serde_json::from_value::<Stored>(case.clone()) else {
             return Vec::new();
         };
+        if let Some(h) = &s.shist {
+            return crate::syscalls::shrink(h)
+                .into_iter()
+                .map(|h| serde_json::to_value(Stored { case: s.case.clone(), shist: Some(h) }).unwrap())
+                .collect();
+        }
         let mut out = Vec::new();
         for i in 1..s.case.lines.len().saturating_sub(1) {
             let mut n = s.case.clone();
             n.lines.remove(i);
             n.tags.remove(i);
-            out.push(serde_json::to_value(Stored { case: n }).unwrap());
+            out.push(serde_json::to_value(Stored { case: n, shist: None }).unwrap());
         }
         out
     }
